@@ -3,6 +3,7 @@ import Drivers.OracleD
 import Drivers.GovD
 import Drivers.BankVmD
 import Drivers.ShieldD
+import Drivers.StakingD
 /-
   Chain driver: reads the trace of the real application (one JSON object per line),
   runs the model on every operation from the *observed* pre-state, compares the
@@ -32,6 +33,9 @@ structure DS where
   hasVest : Bool := false
   cvm : Cvm.State := default
   hasCvm : Bool := false
+  stk : StakingD.Obs := default
+  hasStk : Bool := false
+  view : Staking.View := []          -- C09 ghost: the validator set as consensus has been told
   shield : Shield.State := default
   hasShield : Bool := false
   shieldOutside : Bool := false      -- coins of a denomination the shield model does not cover were seen
@@ -66,7 +70,9 @@ def loadObs (ds : DS) (st : Json) : DS := Id.run do
   if J.has st "oracle" then ds := { ds with oracle := OracleD.parseState (J.get st "oracle"), hasOracle := true }
   if J.has st "gov" then ds := { ds with gov := GovD.parseGov (J.get st "gov"), hasGov := true }
   if J.has st "cert" then ds := { ds with cert := GovD.parseCert (J.get st "cert"), hasCert := true, certUnret := GovD.unretrievable (J.get st "cert") }
-  if J.has st "staking" then ds := { ds with stake := GovD.parseStake (J.get st "staking"), staked := BankVmD.stakedOf (J.get st "staking") }
+  if J.has st "staking" then
+    ds := { ds with stake := GovD.parseStake (J.get st "staking"), staked := BankVmD.stakedOf (J.get st "staking") }
+    if J.has (J.get st "staking") "vals2" then ds := { ds with stk := StakingD.parse (J.get st "staking"), hasStk := true }
   if J.has st "vesting" then
     let (vs, accts) := BankVmD.parseVesting (J.get st "vesting")
     ds := { ds with vest := vs, accounts := accts, hasVest := true }
@@ -360,6 +366,7 @@ def transitionMonitors (ds : DS) (preG : Gov.State) (preC : Cert.State) (isEnd :
 def handleTx (ds : DS) (j : Json) : IO DS := do
   let pre : MW := { l := ds.ledger, o := ds.oracle, g := ds.gov, c := ds.cert, v := ds.vest, k := ds.cvm, accts := ds.accounts, sh := ds.shield }
   let preStake := ds.stake
+  let preStk := ds.stk
   let signer := J.strOf j "signerAddr"
   let fee : Coins := if J.intOf j "fee" > 0 then [("uctk", J.intOf j "fee")] else []
   let code := J.intOf j "code"
@@ -495,6 +502,16 @@ def handleTx (ds : DS) (j : Json) : IO DS := do
     for r in pre.sh.reimbs do
       if !(ds.shield.reimbs.any (· == r)) && !(code == 0 && msgs.any (fun m => J.strOf m "t" == "shield.withdrawReimbursement" && (J.intOf m "pid").toNat == r.pid)) then
         ds ← finding ds "monitor" "C04" "reimbursement_withdrawn_once" s!"reimbursement {r.pid} disappeared without a withdrawal"
+  if ds.hasStk then
+    -- C09: an unbonding entry is created with the full unbonding time and no entry leaves the queue in a transaction
+    for u in ds.stk.ubds do
+      if !(preStk.ubds.any (· == u)) && !(preStk.ubds.any (fun x => StakingD.ubdKey x == StakingD.ubdKey u)) && u.time < ds.t + preStk.unbondingNs then
+        -- (entries of one delegator/validator/height are merged by the SDK: a grown balance is a new request)
+        if !(preStk.ubds.any (fun x => x.del == u.del && x.val == u.val && x.height == u.height && x.time == u.time)) then
+          ds ← finding ds "monitor" "C09" "unbonding_waits_full_time" s!"entry {StakingD.ubdKey u} created at {ds.t} completes at {u.time} (unbonding time {preStk.unbondingNs})"
+    for u in preStk.ubds do
+      if !(ds.stk.ubds.any (fun x => x.del == u.del && x.val == u.val && x.height == u.height && x.time ≥ u.time && x.balance ≥ u.balance)) then
+        ds ← finding ds "monitor" "C09" "unbonding_never_early" s!"entry {StakingD.ubdKey u} due at {u.time} left the queue (or shrank, or moved earlier) in a transaction at {ds.t}"
   if ds.hasVest then
     for x in BankVmD.monUnlockerImmutable pre.v ds.vest do ds ← finding ds "monitor" "C19" "unlocker_immutable" x
     for x in BankVmD.monMonotone pre.v ds.vest do ds ← finding ds "monitor" "C19" "vesting_monotone" x
@@ -563,12 +580,60 @@ def handleBegin (ds : DS) (j : Json) : IO DS := do
 def handleEnd (ds : DS) (j : Json) : IO DS := do
   let pre : MW := { l := ds.ledger, o := ds.oracle, g := ds.gov, c := ds.cert, v := ds.vest, k := ds.cvm, accts := ds.accounts, sh := ds.shield }
   let mut ds := ds
+  let preStk := ds.stk
   if J.has j "panic" then
     ds ← finding ds "panic" "C08" ("end:" ++ J.strOf (J.get j "panic") "site") (J.strOf (J.get j "panic") "value")
     return ds
   ds := loadObs ds (J.get j "st")
   -- the staking end-blocker runs before governance's: the tally reads the staking state as it is after this block
   let preStake := ds.stake
+  if ds.hasStk then
+    ds := stat ds "mon.c09.end"
+    let o := ds.stk
+    let vu := StakingD.parseVu (J.get j "vu")
+    if !vu.isEmpty then ds := stat ds "sit.c09.validator_updates"
+    let view' := Staking.applyUpdates ds.view vu
+    let bonded := StakingD.bondedView o
+    -- a claim paid by governance's end-blocker (which runs after staking's) takes stake from validators: consensus learns
+    -- of it in the next block, like of anything else that happens after the staking end-blocker
+    let paidNow := ds.hasShield && ds.gov.proposals.any (fun p => p.kind == "claim" && p.status == 4 &&
+      ((pre.g.proposals.find? (·.id == p.id)).map (·.status)).getD 0 != 4)
+    if paidNow then ds := stat ds "sit.c09.stake_changed_after_staking_endblocker"
+    -- consensus' view after this block's updates is the bonded set
+    if !paidNow && !Staking.sameViewB view' bonded then
+      ds ← finding ds "monitor" "C09" "consensus_view_tracks_bonded_set" s!"consensus sees [{StakingD.showView view'}], bonded validators are [{StakingD.showView bonded}]; updates [{StakingD.showView vu}]"
+    -- the bonded set is the set that deserves it
+    let tgt := Staking.target (o.vals.map (·.v)) o.maxN
+    if StakingD.cutDecided o && !paidNow then
+      if !Staking.sameViewB view' tgt then
+        ds ← finding ds "monitor" "C09" "validator_set_follows_stake" s!"consensus sees [{StakingD.showView view'}]; by stake the set should be [{StakingD.showView tgt}] (max {o.maxN})"
+      -- correspondence: the updates are exactly the difference
+      if StakingD.sortUpd vu != StakingD.sortUpd (Staking.updates ds.view tgt) then
+        ds ← finding ds "diverge" "C09" "state:end:validator-updates" s!"model=[{StakingD.showUpd (Staking.updates ds.view tgt)}] impl=[{StakingD.showUpd vu}]"
+    else ds := stat ds "sit.c09.tie_at_the_cut"
+    ds := { ds with view := view' }
+    -- unbondings and redelegations whose time has come are completed; the others stay
+    let due := Staking.matured ds.t preStk.ubds
+    if !due.isEmpty then ds := stat ds "sit.c09.unbondings_matured"
+    for u in ds.stk.ubds do
+      if u.time ≤ ds.t then ds ← finding ds "monitor" "C09" "mature_unbonding_completes" s!"entry {StakingD.ubdKey u} due at {u.time} still queued after the block at {ds.t}"
+    for r in ds.stk.reds do
+      if r.time ≤ ds.t then ds ← finding ds "monitor" "C09" "mature_redelegation_completes" s!"redelegation of {r.del} {r.src}->{r.dst} due at {r.time} still recorded after the block at {ds.t}"
+    if !(preStk.reds.filter (·.time ≤ ds.t)).isEmpty then ds := stat ds "sit.c09.redelegations_matured"
+    if !ds.hasShield then
+      for u in Staking.pending ds.t preStk.ubds do
+        if !(ds.stk.ubds.any (· == u)) then ds ← finding ds "monitor" "C09" "unbonding_never_early" s!"entry {StakingD.ubdKey u} due at {u.time} left the queue at {ds.t}"
+    else
+      for u in Staking.pending ds.t preStk.ubds do
+        -- a claim lock may postpone an entry and a payout may take from it; nothing else
+        if !(ds.stk.ubds.any (fun x => x.del == u.del && x.val == u.val && x.height == u.height && x.time ≥ u.time)) && !(ds.gov.proposals.any (fun p => p.kind == "claim" && p.status == 4)) then
+          ds ← finding ds "monitor" "C09" "unbonding_never_early" s!"entry {StakingD.ubdKey u} due at {u.time} left the queue at {ds.t}"
+    if !ds.hasGov && !ds.hasShield then
+      -- the coins come back, exactly
+      for a in (due.map (·.del)).eraseDups do
+        let got := Coins.amountOf (Coins.sub (ds.ledger.bal a) (pre.l.bal a)) "uctk"
+        if got != Staking.returnedTo a due then
+          ds ← finding ds "monitor" "C09" "unbonded_coins_returned" s!"delegator {a}: matured {Staking.returnedTo a due}, received {got}"
   ds := stat ds "block.end"
   let mut w := pre
   let mut modelOk := true
@@ -664,6 +729,9 @@ def handleEnd (ds : DS) (j : Json) : IO DS := do
     for x in ShieldD.monCollateralRelease pre.sh ds.shield ds.t paidTotal do ds ← finding ds "monitor" "C07,C04" "released_only_by_queue" x
     for x in ShieldD.monQueueAfterEnd ds.shield ds.t do ds ← finding ds "monitor" "C07" "matured_withdrawals_complete" x
     for x in ShieldD.monNewWithdraws pre.sh ds.shield ds.t do ds ← finding ds "monitor" "C07" "full_period_before_release" x
+  if ds.hasStk && !ds.hasShield then
+    -- the staking end-blocker pays matured unbonding entries back out of the not-bonded pool
+    w := { w with l := (Staking.completeUnbondings w.l (ds.sys.modAddr "not_bonded_tokens_pool") "uctk" ds.t preStk.ubds).1 }
   if ds.hasGov then
     -- gov runs before oracle in the end-blocker order; they share nothing but the ledger
     if pre.g.proposals.any (fun p => p.kind == "claim" && GovD.liveStatus p.status) then
@@ -707,15 +775,16 @@ def handleEnd (ds : DS) (j : Json) : IO DS := do
     if !(Coins.isZero burned) then ds := stat ds "sit.c11.deposits_burned"
     let depositors := (released.map (·.depositor)).eraseDups
     let mut back : Coins := []
+    let unbonded (a : Addr) : Coins := [("uctk", Staking.returnedTo a (Staking.matured ds.t preStk.ubds))]
     for a in depositors do
-      back := Coins.add back (Coins.sub (ds.ledger.bal a) (pre.l.bal a))
+      back := Coins.add back (Coins.sub (Coins.sub (ds.ledger.bal a) (pre.l.bal a)) (unbonded a))
     let total := released.foldl (fun acc d => Coins.add acc d.amount) ([] : Coins)
     if !Coins.beq total (Coins.add back burned) then
       ds ← finding ds "monitor" "C11" "refund_or_burn_exact" s!"released={Coins.toStr total} returned={Coins.toStr back} burned={Coins.toStr burned} proposals={finalised.map (·.id)}"
     if Coins.isZero burned then
       for a in depositors do
         let mine := (released.filter (·.depositor == a)).foldl (fun acc d => Coins.add acc d.amount) ([] : Coins)
-        let got := Coins.sub (ds.ledger.bal a) (pre.l.bal a)
+        let got := Coins.sub (Coins.sub (ds.ledger.bal a) (pre.l.bal a)) (unbonded a)
         if !Coins.beq mine got then
           ds ← finding ds "monitor" "C11" "refund_or_burn_exact" s!"depositor {a} had {Coins.toStr mine} in escrow, received {Coins.toStr got}"
     -- C12: outcome of each round, restated independently
@@ -769,6 +838,7 @@ partial def loop (hIn : IO.FS.Stream) (ds : DS) : IO DS := do
         let ds0 : DS := { sys := { names := names }, hist := J.intOf j "seed", line := ds.line, h := J.intOf j "h", t := J.intOf j "t",
                           stats := ds.stats, nFind := ds.nFind, nSample := ds.nSample }
         let ds0 := noteStatuses (loadObs ds0 (J.get j "st"))
+        let ds0 := { ds0 with view := StakingD.bondedView ds0.stk }
         runMonitors (stat ds0 "history") false true
       | "tx" => handleTx ds j
       | "begin" => handleBegin ds j
